@@ -17,14 +17,16 @@ LEVEL = "proof"
 
 
 def gen_case(rng, i):
-    kind = ["ok", "ok", "ok", "missing-file", "bad-json", "malformed-system", "ok"][i % 7]
+    kind = ["ok", "ok", "ok", "missing-file", "bad-json", "malformed-system", "ok", "no-dynamics"][i % 8]
     g = systems.gen_system(rng, shape=rng.choice(["isolated", "offset_single", "mixed_nonlinear", "numeric_dep_analytic"]), with_params=rng.choice(["none", "all"]))
     ind = g["indict"]
+    if kind == "no-dynamics":
+        ind = rng.choice([{}, {"parameters": {"tau": "1"}}, {"options": {"sim_time": "0.1"}, "parameters": {"a": "2"}}])
     if kind == "malformed-system":
         d = ind["dynamics"][0]
         d.pop("initial_value", None)
         d.pop("initial_values", None)
-    names = [d["expression"].split("=")[0].strip() for d in ind["dynamics"]]
+    names = [d["expression"].split("=")[0].strip() for d in ind.get("dynamics", [])]
     first = [n[:-1] for n in names if n.count("'") == 1]
     argv = ["--disable-stiffness-check"]           # PyGSL is absent: without it every run fails the same way in API and CLI (also exercised below)
     flags = {"disable_stiffness_check": True}
@@ -85,7 +87,7 @@ def case_cli(case):
                 content = json.load(f)
         api = None
         api_exc = None
-        if case["kind"] in ("ok", "malformed-system"):
+        if case["kind"] in ("ok", "malformed-system", "no-dynamics"):
             try:
                 api = json.loads(json.dumps(odetoolbox.analysis(json.loads(json.dumps(case["indict"])), **case["flags"])))
             except BaseException as e:
@@ -120,9 +122,9 @@ def run(ctx, driver):
             continue
         ctx.count("kind:" + case["kind"])
         ctx.count("preserve:" + ("absent" if "--preserve-expressions" not in case["argv"] else "bare" if case["flags"].get("preserve_expressions") is True else "names"))
-        if case["kind"] in ("ok", "malformed-system"):
+        if case["kind"] in ("ok", "malformed-system", "no-dynamics"):
             ctx.note_nontrivial(json.dumps([case["indict"], case["argv"], case["subdir"], case["fname"]], sort_keys=True))
-        should_succeed = case["kind"] == "ok" and res["api_exc"] is None
+        should_succeed = case["kind"] in ("ok", "no-dynamics") and res["api_exc"] is None
         sig = {"kind": case["kind"], "dotted_directory": "." in case["subdir"], "has_extension": "." in case["fname"]}
         want_name = case["stem_expected"] + "_result.json"
         if should_succeed:
@@ -148,7 +150,7 @@ def run(ctx, driver):
                 pres = [] if pe is True else list(pe)
             payloads.append(("cli", {"infile": rel, "disable_stiffness": "--disable-stiffness-check" in case["argv"], "disable_analytic": "--disable-analytic-solver" in case["argv"],
                                      "preserve": pres, "log_level": case["flags"].get("log_level", "WARN"), "exists": case["kind"] != "missing-file",
-                                     "load_ok": case["kind"] != "bad-json", "api_ok": res["api_exc"] is None and case["kind"] in ("ok", "malformed-system")}))
+                                     "load_ok": case["kind"] != "bad-json", "api_ok": res["api_exc"] is None and case["kind"] in ("ok", "malformed-system", "no-dynamics")}))
         ans = driver.ask(payloads)
         for (case, res, ok), a in zip(ops, ans):
             ctx.count("corr_cli")
